@@ -305,10 +305,13 @@ bool exec_ss(Ctx &c, const Op &op) {
         bool utf8 = (op.b % 4) != 3;
         ST::utf_validation_t val = (op.c % 3 == 0) ? ST::check_validity : (op.c % 3 == 1) ? ST::substitute_invalid : ST::assume_valid;
         bool wf = strict_utf8(o->model.data(), o->model.size());
-        char e[48]; std::snprintf(e, sizeof e, "%s,%s,%s", mode(o), utf8 ? "utf8" : "latin1", wf ? "wf" : "invalid"); note_sig(c, op, e);
+        // one call in four is made on the stream as an rvalue - std::move(ss).to_string(): a stream about to die may hand its storage over. What it
+        // holds afterwards is then its old content or nothing, and it is a valid stream either way
+        const bool rv = ((op.b >> 4) & 3) == 0;
+        char e[56]; std::snprintf(e, sizeof e, "%s,%s,%s%s", mode(o), utf8 ? "utf8" : "latin1", wf ? "wf" : "invalid", rv ? ",rvalue" : ""); note_sig(c, op, e);
         c.budget_bytes = 3 * o->model.size();
         if (!wf && utf8) probe(c, PR_SS_TO_STRING_INVALID);
-        as_const(o);
+        if (rv) as_target(o); else as_const(o);
         bool ok = true; std::string got;
         bool defaults = (op.c % 3 == 0) && (op.b & 4);
         // "returns those bytes as a validated UTF-8 string": what validation accepts is another property's business, so the reference is the
@@ -319,7 +322,8 @@ bool exec_ss(Ctx &c, const Op &op) {
             run_quiet([&] { simrt::SutScope sc; try { ST::string r = ST::string::from_utf8(o->model.data(), o->model.size(), val); ref.assign(r.c_str(), r.size()); } catch (const ST::unicode_error &) { ref_throws = true; } });
         }
         ExcKind ex = run_sut(c, op, [&] {
-            ST::string r = defaults ? (utf8 ? o->p()->to_string() : o->p()->to_string(false)) : o->p()->to_string(utf8, val);
+            ST::string r = rv ? (defaults ? (utf8 ? std::move(*o->p()).to_string() : std::move(*o->p()).to_string(false)) : std::move(*o->p()).to_string(utf8, val))
+                              : defaults ? (utf8 ? o->p()->to_string() : o->p()->to_string(false)) : o->p()->to_string(utf8, val);
             got.assign(r.c_str(), r.size());
         });
         if (ref_used && !c.fired && ex != EX_BAD_ALLOC) {
@@ -331,6 +335,7 @@ bool exec_ss(Ctx &c, const Op &op) {
             if (utf8) { if (wf || val != ST::substitute_invalid) ok = (got == o->model); }
             else ok = (got == latin1_ref(o->model));
             if (!ok) set_viol(c, "value_mismatch", "to_string() returned bytes that differ from the stream content");
+            if (rv && o->st == M_DEFINITE) o->st = M_OLD_OR_EMPTY;
         }
         return true;
     }
